@@ -824,6 +824,10 @@ package hashgraph
 //@   ensures[fail]    ret0 != nil && __in(CreatorOf(event), G_rep(h.Store)) && (event.Body.Parents[0] == "" || __in(event.Body.Parents[0], G_events(h.Store))) && (event.Body.Parents[1] == "" || __in(event.Body.Parents[1], G_events(h.Store))) ==> G_miss(h.Store)
 //@   ensures[self]    ret0 == nil ==> (event.Body.Parents[0] == "" ==> event.Body.selfParentIndex == -1) && (event.Body.Parents[0] != "" ==> __in(event.Body.Parents[0], G_events(h.Store)) && event.Body.selfParentIndex == G_events(h.Store)[event.Body.Parents[0]].Body.Index)
 //@   ensures[other]   ret0 == nil ==> (event.Body.Parents[1] == "" ==> event.Body.otherParentIndex == -1 && event.Body.otherParentCreatorID == 0) && (event.Body.Parents[1] != "" ==> __in(event.Body.Parents[1], G_events(h.Store)) && event.Body.otherParentIndex == G_events(h.Store)[event.Body.Parents[1]].Body.Index)
+// the creator references of the wire form are resolved through the repertoire (the only table every node shares),
+// not through anything cached on the parent event (frame events adopted by a fast-sync carry no such cache)
+//@   ensures[other-creator] ret0 == nil && event.Body.Parents[1] != "" ==> __in(CreatorOf(G_events(h.Store)[event.Body.Parents[1]]), G_rep(h.Store)) && event.Body.otherParentCreatorID == PID(G_rep(h.Store)[CreatorOf(G_events(h.Store)[event.Body.Parents[1]])])
+//@   ensures[creator-id]    ret0 == nil ==> __in(CreatorOf(event), G_rep(h.Store)) && event.Body.creatorID == PID(G_rep(h.Store)[CreatorOf(event)])
 
 // Database form (C15, C16): the wrapper carries the body, the signature and eight private fields; round,
 // Lamport timestamp and round-received are deliberately not stored (they are recomputed).
